@@ -5,13 +5,14 @@ from .cell import CellType
 def format_number(n, n_type):
     'Convert the given number to a string, the way QB used to do.'
     if n_type == CellType.SINGLE:
+        # show the fewest digits (at most 9) that identify the 32-bit
+        # value, not the digits of its 64-bit representation
         n = ctypes.c_float(n).value
-        sn = str(n)
-        if '.' in sn and 'e' not in sn:
-            digits = len(sn) - 1
-            before_decimal = sn.index('.')
-            desired_total_digits = 7
-            n = round(n, ndigits=desired_total_digits-before_decimal)
+        for precision in range(1, 10):
+            candidate = float('%.*g' % (precision, n))
+            if ctypes.c_float(candidate).value == n:
+                n = candidate
+                break
     if n == 0:
         # there is no negative zero in QB's output
         n = abs(n)
